@@ -1,6 +1,6 @@
 """Core of the static rule library: fact loading, CFG, dominance, control dependence,
 provenance.  Works on the JSON emitted by tools/mirfacts (type-checked MIR of /repo)."""
-import json, os, re, sys, hashlib, subprocess, fcntl, glob, shutil, time
+import json, os, re, sys, hashlib, subprocess, fcntl, glob, shutil, time, tempfile
 from collections import defaultdict, deque
 
 REPO = os.environ.get('VERIF_REPO', '/repo')
@@ -593,6 +593,13 @@ def load_witness(name, features='-', repo=REPO):
         try:
             if not os.path.exists(p):
                 lockfile = os.path.join(repo, 'Cargo.lock')
+                if repo != '/repo':
+                    # analysing a scratch copy of the repository: build the witness from a scratch copy that points at it
+                    w2 = tempfile.mkdtemp(prefix='witness_')
+                    shutil.copytree(wdir, os.path.join(w2, name), ignore=shutil.ignore_patterns('target', 'Cargo.lock'))
+                    wdir = os.path.join(w2, name)
+                    ct = open(os.path.join(wdir, 'Cargo.toml')).read().replace('path = "/repo', 'path = "%s' % repo)
+                    open(os.path.join(wdir, 'Cargo.toml'), 'w').write(ct)
                 if os.path.exists(lockfile):
                     shutil.copy(lockfile, os.path.join(wdir, 'Cargo.lock'))
                 tmp = p + '.dir.%d' % os.getpid()
